@@ -116,6 +116,8 @@ def render_leaftype(L):
             t = R.array_ann_nested(L[1], 1, dtype=d)
         else:
             t = d[st["np"].ndarray, R.dim_str(L[1])]
+    elif k == "union|":
+        t = render_leaftype(L[1]) | render_leaftype(L[2])          # PEP 604 spelling
     elif k == "union":
         t = typing.Union[render_leaftype(L[1]), render_leaftype(L[2])]
     elif k == "tupA":
